@@ -35,6 +35,7 @@ THEOREMS = [
     "C19_derives_ignore_tagging",
     "C19_unnamed_emit_nothing",
     "C19_derives_sorted_nodup",
+    "C19_expected_impls_cover_surface",
 ]
 
 MUT = os.environ.get("C19_MUTATE", "")
@@ -133,6 +134,35 @@ PIECES = {
     "MinLenStr": ({"type": "string", "minLength": 2}, {"strnt", "constrained"}),
     "PatternStr": ({"type": "string", "pattern": "^[a-z]+$"}, {"strnt", "constrained"}),
     "DenyStr": ({"type": "string", "not": {"enum": ["bad", "worse"]}}, {"strnt", "constrained"}),
+    # boundary / degenerate constraint values of every constrained-newtype kind
+    "Min0Str": ({"type": "string", "minLength": 0}, {"strnt", "constrained", "boundary"}),
+    "Max0Str": ({"type": "string", "maxLength": 0}, {"strnt", "constrained", "boundary"}),
+    "Min0Max0Str": ({"type": "string", "minLength": 0, "maxLength": 0}, {"strnt", "constrained", "boundary"}),
+    "MinEqMaxStr": ({"type": "string", "minLength": 3, "maxLength": 3}, {"strnt", "constrained", "boundary"}),
+    "MinGtMaxStr": ({"type": "string", "minLength": 5, "maxLength": 2}, {"strnt", "constrained", "boundary"}),
+    "HugeMaxStr": ({"type": "string", "maxLength": 4294967295}, {"strnt", "constrained", "boundary"}),
+    "Min1Str": ({"type": "string", "minLength": 1}, {"strnt", "constrained", "boundary"}),
+    "Min0Max5Str": ({"type": "string", "minLength": 0, "maxLength": 5}, {"strnt", "constrained", "boundary"}),
+    "EmptyPatternStr": ({"type": "string", "pattern": ""}, {"strnt", "constrained", "boundary"}),
+    "DotStarPatternStr": ({"type": "string", "pattern": ".*"}, {"strnt", "constrained", "boundary"}),
+    "AnchorPatternStr": ({"type": "string", "pattern": "^$"}, {"strnt", "constrained", "boundary"}),
+    "Min0PatternStr": ({"type": "string", "minLength": 0, "pattern": "a"}, {"strnt", "constrained", "boundary"}),
+    "UnicodePatternStr": ({"type": "string", "pattern": "^[\u00e9\u4e2d]+$"}, {"strnt", "constrained", "boundary"}),
+    "DenyOneStr": ({"type": "string", "not": {"enum": ["x"]}}, {"strnt", "constrained", "boundary"}),
+    "DenyEmptyStrValue": ({"type": "string", "not": {"enum": [""]}}, {"strnt", "constrained", "boundary"}),
+    "DenyMinStr": ({"type": "string", "minLength": 2, "not": {"enum": ["xx"]}}, {"strnt", "constrained", "boundary"}),
+    "DenyIntMany": ({"type": "integer", "not": {"enum": [0, 1, -1]}}, {"newtype", "constrained", "boundary"}),
+    "EnumIntOne": ({"type": "integer", "enum": [7]}, {"newtype", "constrained", "boundary"}),
+    "EnumIntDup": ({"type": "integer", "enum": [1, 1]}, {"newtype", "constrained", "boundary"}),
+    "EnumIntNeg": ({"type": "integer", "enum": [-1, 0]}, {"newtype", "constrained", "boundary"}),
+    "EnumFloatOne": ({"type": "number", "enum": [0.5]}, {"float", "newtype", "constrained", "boundary"}),
+    "EnumBool": ({"type": "boolean", "enum": [True]}, {"newtype", "boundary"}),
+    "Min0Uuid": ({"type": "string", "minLength": 0, "format": "uuid"}, {"newtype", "native", "boundary"}),
+    # the same degenerate constraints on anonymous (property) positions
+    "BoundaryPropsStruct": (obj({"a": {"type": "string", "minLength": 0}, "b": {"type": "string", "maxLength": 0},
+                                 "c": {"type": "string", "pattern": ""}, "d": {"type": "string", "not": {"enum": [""]}},
+                                 "e": {"type": "integer", "enum": [7]}, "f": {"type": "string", "minLength": 4, "maxLength": 2}},
+                                ["a", "e"]), {"struct", "boundary"}),
     "IntNewtype": (INT, {"newtype"}),
     "U8Newtype": ({"type": "integer", "format": "uint8"}, {"newtype"}),
     "BoolNewtype": ({"type": "boolean"}, {"newtype"}),
@@ -287,6 +317,9 @@ def gen_cases(ctx):
     for r in range(n_rand):
         k = rnd.randint(2, 9)
         names = rnd.sample(allp, k)
+        bnd = rnd.choice([n for n in allp if "boundary" in PIECES[n][1]])
+        if bnd not in names:
+            names.append(bnd)
         forced = rnd.choice(["InternalUnitEnum", "InternalUnitDenyEnum", "InternalConstEnum", "AdjacentUnitEnum",
                              "ExternalConstEnum", "RenamedEnum", "OneOfDescEnum", "NullableEnum"])
         if forced not in names:
@@ -340,7 +373,7 @@ def scan_view(gen):
             continue
         n = it["name"]
         tr = impls.get(n, set())
-        v = {"name": n, "vis": it["vis"], "derives": list(it.get("derives", [])),
+        v = {"name": n, "vis": it["vis"], "derives": list(it.get("derives", [])), "inner": None,
              "de_impl": "::serde::Deserialize<'de>" in tr,
              "from_ref": ("::std::convert::From<&Self>" in tr) or ("::std::convert::From<&%s>" % n in tr),
              "dataless": False, "strinner": False,
@@ -356,6 +389,7 @@ def scan_view(gen):
             if f["k"] == "tuple":
                 v["kind"] = "newtype"
                 v["fields"] = [x["vis"] for x in f["fields"]]
+                v["inner"] = squash(f["fields"][0]["ty"]) if len(f["fields"]) == 1 else None
                 # `::std::string::String` is the spelling typify itself uses for a schema string
                 # (type_ident of TypeEntryDetails::String); a user replacement type is not a plain string
                 v["strinner"] = len(f["fields"]) == 1 and squash(f["fields"][0]["ty"]) == "::std::string::String"
@@ -366,6 +400,23 @@ def scan_view(gen):
                 v["kind"] = "struct"
                 v["fields"] = []
         out.append(v)
+    return out
+
+
+def impl_pairs(gen):
+    """{(trait, self type)} of the root-module impls, whitespace removed."""
+    return {(squash(im["trait"]), squash(im["for"])) for im in gen["render"]["scan"].get("impls", [])
+            if im["mod"] == "" and im.get("trait")}
+
+
+def missing_impls(mentry, sentry, pairs):
+    """expected_impls (Coq, per kind) instantiated with the emitted item's name / inner type, minus what the
+    scan found."""
+    out = []
+    for tr, fo in mentry.get("impls", []):
+        sub = lambda x: x.replace("$T", sentry["name"]).replace("$I", sentry.get("inner") or "?")
+        if (sub(tr), sub(fo)) not in pairs:
+            out.append([sub(tr), sub(fo)])
     return out
 
 
@@ -437,7 +488,7 @@ def model_views(tag, gens):
     shards = []      # [(defs, [(module index, expr)])]
     cur_defs, cur_ex, cur_sz = [], [], 0
     for k, g in enumerate(gens):
-        est = lambda es: sum(260 + 16 * (10 + len(e.get("extra_derives", [])) +
+        est = lambda es: sum(640 + 16 * (10 + len(e.get("extra_derives", [])) +
                                          len(g["dump"]["settings"]["extra_derives"])) + len(e["name"]) +
                              10 * len(e.get("props", [])) for e in es)
         ids = sorted(int(i) for i, e in g["dump"]["entries"].items() if e["kind"] in ("enum", "struct", "newtype"))
@@ -514,6 +565,16 @@ def mutate_scan_view(sv):
 
 
 CMP_KEYS = ("name", "kind", "vis", "derives", "fields", "de_impl", "from_ref")
+
+
+def mutate_pairs(pairs, sv):
+    if MUT == "impl-min0-no-validating-impls":
+        for e in sv:
+            if e["name"].startswith("Min0Str"):
+                pairs = {p for p in pairs if not (p[1] == e["name"] and (
+                    "Deserialize" in p[0] or "FromStr" in p[0] or "TryFrom" in p[0]))}
+                e["de_impl"] = False
+    return pairs
 
 
 def compare_views(mv, sv):
@@ -624,6 +685,8 @@ def run(ctx):
         ctx.oblige("model Emit.v evaluates on the dumped IRs", False, str(e)[-3000:])
     sviews = {i: mutate_scan_view(scan_view(w.gen[i])) for i in rendered}
     n_types = 0
+    n_impls = 0
+    missing = []
     kinds = {}
     for i in rendered:
         for e in sviews[i]:
@@ -634,15 +697,30 @@ def run(ctx):
             kinds[key] = kinds.get(key, 0) + 1
             ctx.nontrivial.add(json.dumps([e["kind"], e["tagging"], e["derives"], e["fields"], e["de_impl"]]))
         if model_ok:
+            pairs = mutate_pairs(impl_pairs(w.gen[i]), sviews[i])
             d = compare_views(mviews[i], sviews[i])
             if d:
                 mism.append({"module": metas[i]["src"], "case": cases[i], "diff": d})
+            byname = {}
+            for e in sviews[i]:
+                byname.setdefault(e["name"], []).append(e)
+            for me in mviews[i]:
+                for se in byname.get(me["name"], [])[:1]:
+                    n_impls += len(me.get("impls", []))
+                    miss = missing_impls(me, se, pairs)
+                    if miss:
+                        missing.append({"kind": "expected-impl-missing", "module": metas[i]["src"], "type": me["name"],
+                                        "ir_kind": me["kind"], "missing": miss, "case": cases[i]})
             pan = [e["name"] for e in mviews[i] if e.get("panics")]
             if pan:
                 mism.append({"module": metas[i]["src"], "case": cases[i], "model_predicts_output_panic_but_rendered": pan})
     ctx.oblige("correspondence K4: derives_of / item_vis / field_vis / emits_* (Coq, on the dumped IR) = syn scan of "
                "to_stream() on %d types of %d modules" % (n_types, len(rendered)), model_ok and not mism,
                json.dumps(mism[:3])[:3000])
+    ctx.oblige("correspondence K4i: every impl of expected_impls(kind) (Coq table: Deref / From / TryFrom / FromStr / "
+               "Deserialize<'de> per IR kind) is in the syn scan of the emitted module (%d headers)" % n_impls,
+               model_ok and not missing, json.dumps(missing[:3])[:3000])
+    ctx.coverage["expected_impl_headers_checked"] = n_impls
     ctx.evaluations += n_types
     ctx.coverage["types_compared_K4"] = n_types
     ctx.coverage["K4_mismatches"] = len(mism)
@@ -650,6 +728,7 @@ def run(ctx):
 
     # ---- direct evaluation of the property on the implementation (K6 + visibility scan)
     found = []
+    de_reqs = []
     n_assert = 0
     assert_kinds = {"base": 0, "enum": 0, "str": 0}
     unevaluated = []
@@ -687,10 +766,23 @@ def run(ctx):
             # Deserialize: derived xor validating impl
             has_d = "::serde::Deserialize" in e["derives"]
             if not has_d and not e["de_impl"]:
-                found.append({"kind": "no-Deserialize-at-all", "module": src, "type": e["name"], "case": cases[i]})
-    for i in range(n):
-        for (j, tag), msgs in w.chunk_failures.items():
-            pass
+                found.append({"kind": "no-Deserialize-at-all", "module": src, "type": e["name"], "case": cases[i],
+                              "derives": e["derives"]})
+            elif not w.has_arm(i, e["name"], "de"):
+                found.append({"kind": "no-de-entry-point-in-compiled-driver", "module": src, "type": e["name"],
+                              "case": cases[i]})
+            elif not has_d:
+                de_reqs.append((i, e["name"], {"m": i, "t": e["name"], "op": "de",
+                                               "input": "\"ab\"" if e["strinner"] else "1"}))
+    # the validating Deserialize of every constrained newtype really runs in the compiled world
+    if de_reqs:
+        ans = w.query([r for _, _, r in de_reqs])
+        for (i, name, r), a in zip(de_reqs, ans):
+            if not isinstance(a, dict) or not ("ok" in a or "err" in a):
+                found.append({"kind": "validating-deserialize-does-not-run", "module": metas[i]["src"], "type": name,
+                              "answer": a, "case": cases[i]})
+    ctx.coverage["validating_deserialize_executed"] = len(de_reqs)
+    ctx.evaluations += len(de_reqs)
     ctx.evaluations += n_assert
     ctx.coverage["bound_assertions_compiled"] = n_assert
     ctx.coverage["bound_assertions_by_clause"] = assert_kinds
@@ -723,7 +815,7 @@ def run(ctx):
 
     # ---- verdict
     unlisted = []
-    for v in found:
+    for v in found + missing:
         f = None
         for kf in ctx.findings_for():
             if kf.get("class") == v["kind"] and kf.get("witness_type") == v.get("type"):
